@@ -29,6 +29,8 @@ class NS(dict):
     def __missing__(self, key):
         if key == "UNPICKLER":
             return Unpickler(self._w)
+        if key == "frozenset":
+            return frozenset
         return self._w.G("builtins", key)
 
 
